@@ -69,14 +69,15 @@ pub fn generate(ctx: &mut Ctx) {
             }
         }
     }
-    let n = ctx.random_budget(480, 120_000, 1_500_000);
+    let n = ctx.random_budget(320, 120_000, 1_500_000);
     for i in 0..n {
         let mut rng = ctx.rng("hist", i);
         let mut o = gen::Opts::new(rng.chance(1, 2));
         o.max_segs = 8;
         let init = gen::reference(&mut rng, o);
         let mut ops: Vec<String> = Vec::new();
-        for _ in 0..rng.range(1, 24) {
+        let maxops = if ctx.tiny() { 10 } else { 24 };
+        for _ in 0..rng.range(1, maxops) {
             ops.push(match rng.below(10) {
                 0 | 1 => format!("push:{}", gen::segment(&mut rng, o, false, false)),
                 2 => "pop".to_string(),
